@@ -90,22 +90,35 @@ type gsPath struct {
 	text  string
 	notes []string
 	conds []string
+	cont  bool // a `continue` was taken: the rest of the current iteration is skipped
 }
 
 // stage2Paths enumerates the printed text along structured paths of the residual body.
 func stage2Paths(rs *Resid, body *ast.BlockStmt, maxIter int) ([]gsPath, string) {
 	undecided := ""
 	var walk func(list []ast.Stmt, acc []gsPath, iter int) []gsPath
-	walk = func(list []ast.Stmt, acc []gsPath, iter int) []gsPath {
+	walk = func(list []ast.Stmt, all []gsPath, iter int) []gsPath {
+		var parked []gsPath
+		acc := all
 		for _, st := range list {
-			if len(acc) > 4000 {
+			// paths that took a `continue` sit out the rest of the iteration
+			var act []gsPath
+			for _, p := range acc {
+				if p.cont {
+					parked = append(parked, p)
+				} else {
+					act = append(act, p)
+				}
+			}
+			acc = act
+			if len(acc)+len(parked) > 4000 {
 				undecided = "more than 4000 printed-text paths"
-				return acc
+				return append(acc, parked...)
 			}
 			if c, format, ok := fprintfOf(rs, st); c != nil {
 				if !ok {
 					undecided = "Fprintf with a non-literal format"
-					return acc
+					return append(acc, parked...)
 				}
 				txt, notes := renderStage2(rs, format, c.Args[2:], iter)
 				for i := range acc {
@@ -120,8 +133,8 @@ func stage2Paths(rs *Resid, body *ast.BlockStmt, maxIter int) ([]gsPath, string)
 				yes := make([]gsPath, len(acc))
 				no := make([]gsPath, len(acc))
 				for i := range acc {
-					yes[i] = gsPath{acc[i].text, append([]string{}, acc[i].notes...), append(append([]string{}, acc[i].conds...), canon(x.Cond))}
-					no[i] = gsPath{acc[i].text, append([]string{}, acc[i].notes...), append(append([]string{}, acc[i].conds...), "!("+canon(x.Cond)+")")}
+					yes[i] = gsPath{acc[i].text, append([]string{}, acc[i].notes...), append(append([]string{}, acc[i].conds...), canon(x.Cond)), false}
+					no[i] = gsPath{acc[i].text, append([]string{}, acc[i].notes...), append(append([]string{}, acc[i].conds...), "!("+canon(x.Cond)+")"), false}
 				}
 				next = append(next, walk(x.Body.List, yes, iter)...)
 				switch e := x.Else.(type) {
@@ -146,9 +159,12 @@ func stage2Paths(rs *Resid, body *ast.BlockStmt, maxIter int) ([]gsPath, string)
 				for k := 0; k < maxIter; k++ {
 					cp := make([]gsPath, len(cur))
 					for i := range cur {
-						cp[i] = gsPath{cur[i].text, append([]string{}, cur[i].notes...), append([]string{}, cur[i].conds...)}
+						cp[i] = gsPath{cur[i].text, append([]string{}, cur[i].notes...), append([]string{}, cur[i].conds...), false}
 					}
 					cur = walk(body.List, cp, k)
+					for i := range cur {
+						cur[i].cont = false
+					}
 					next = append(next, cur...)
 				}
 				acc = next
@@ -158,17 +174,19 @@ func stage2Paths(rs *Resid, body *ast.BlockStmt, maxIter int) ([]gsPath, string)
 				// return buf.String()
 			case *ast.BranchStmt:
 				if x.Tok == token.CONTINUE {
-					// the rest of this iteration is skipped on these paths
-					return acc
+					for i := range acc {
+						acc[i].cont = true
+					}
+					continue
 				}
 				undecided = "branch statement " + x.Tok.String() + " in the printing function"
-				return acc
+				return append(acc, parked...)
 			default:
 				undecided = fmt.Sprintf("statement %T in the printing function", st)
-				return acc
+				return append(acc, parked...)
 			}
 		}
-		return acc
+		return append(acc, parked...)
 	}
 	paths := walk(body.List, []gsPath{{}}, 0)
 	return paths, undecided
@@ -233,6 +251,58 @@ func gostringIssues(rs *Resid, fn *ast.FuncDecl, maxIter int) ([]sideIssue, int,
 			}
 		}
 	}
+	// every iteration over the value's elements prints the element: a path through a loop body that prints nothing drops the
+	// entry from the rebuilt value. For a map that loses the key; for a slice/array (rebuilt with its full length) it is
+	// harmless only when the element is known to be nil on that path.
+	ast.Inspect(fn.Body, func(n ast.Node) bool {
+		r, ok := n.(*ast.RangeStmt)
+		if !ok {
+			return true
+		}
+		bodyPaths, und2 := stage2Paths(rs, r.Body, 1)
+		if und2 != "" {
+			return true
+		}
+		kind := ""
+		if id, ok := unparen(r.X).(*ast.Ident); ok {
+			for _, f := range fn.Type.Params.List {
+				for _, nm := range f.Names {
+					if nm.Name == id.Name {
+						if tid, ok := f.Type.(*ast.Ident); ok {
+							if h := rs.hole(tid.Name); h != nil {
+								kind = kindOfVal(h.Val)
+							}
+						}
+					}
+				}
+			}
+		}
+		for _, p := range bodyPaths {
+			if strings.Contains(p.text, exprStr(r.X)+"[") && strings.Contains(p.text, "] = ") {
+				continue
+			}
+			elemNil := false
+			for _, cnd := range p.conds {
+				cnd = strings.TrimSuffix(strings.TrimPrefix(cnd, "("), ")")
+				if strings.HasSuffix(cnd, "==nil") || strings.HasSuffix(cnd, "== nil") {
+					elemNil = true
+				}
+			}
+			if kind != "*types.Map" && kind != "" && elemNil {
+				continue
+			}
+			k := "loop-skip:" + kind + strings.Join(p.conds, "&&")
+			if !seenErr[k] {
+				seenErr[k] = true
+				what := "the rebuilt map lacks that key"
+				if kind != "*types.Map" {
+					what = "the rebuilt value has the zero value at that position"
+				}
+				iss(r, "element-skipped", "an iteration of `for … range %s` prints no element assignment on the path [%s]: %s, so the round trip does not give an equal value", exprStr(r.X), strings.Join(p.conds, " && "), what)
+			}
+		}
+		return true
+	})
 	// type names inside printed text come from the package-qualifying (bypass) printer; the Go signature from the ordinary one
 	printed := map[string]bool{}
 	ast.Inspect(fn.Body, func(n ast.Node) bool {
